@@ -82,3 +82,42 @@ def conf_same(snap, ds):
     if snap is None or now is None:
         return snap is None and now is None
     return snap[0] == now[0] and same_bits(snap[1], now[1])
+
+
+def enc_rank_joint(inp, out, snap=0.0):
+    """Joint dense rank encoding of an input array and an output array: input values get even ranks 2k (k = index among
+    the sorted distinct finite inputs); an output equal to an input (within `snap` relative tolerance) gets that input's
+    rank, an output strictly between two consecutive inputs the odd rank in between, below all inputs -1, above 2n-1.
+    NaN -> NAN. Commutes with every order statistic."""
+    inp = np.asarray(inp, dtype=np.float64)
+    out = np.asarray(out, dtype=np.float64)
+    fin = inp[np.isfinite(inp)]
+    uniq = np.unique(fin)
+
+    def enc(a, is_out):
+        res = np.full(a.shape, NAN, dtype=np.int64)
+        it = np.nditer(a, flags=["multi_index"])
+        for v in it:
+            v = float(v)
+            if np.isnan(v):
+                continue
+            if len(uniq) == 0:
+                res[it.multi_index] = INEXACT
+                continue
+            i = int(np.searchsorted(uniq, v))
+            cand = []
+            if i < len(uniq):
+                cand.append(i)
+            if i > 0:
+                cand.append(i - 1)
+            hit = None
+            for j in cand:
+                if uniq[j] == v or (is_out and abs(uniq[j] - v) <= snap * max(1.0, abs(v))):
+                    hit = j
+                    break
+            if hit is not None:
+                res[it.multi_index] = 2 * hit
+            else:
+                res[it.multi_index] = 2 * i - 1     # strictly between uniq[i-1] and uniq[i]
+        return res.tolist()
+    return enc(inp, False), enc(out, True)
